@@ -43,6 +43,13 @@ type Fix struct {
 	Time   time.Time
 }
 
+// blockFailHook (C11) is told about every error or recovered panic of the application's
+// BeginBlocker / EndBlocker, in every package harness; blocksRun counts the blocks.
+var (
+	blockFailHook func(kind string, err error)
+	blocksRun     int
+)
+
 // lastFix is the most recently created fixture (used by the generic C18 hook in Run.Trace).
 var lastFix *Fix
 
@@ -203,7 +210,11 @@ func (f *Fix) Begin(dt time.Duration) (err error) {
 			err = &PanicError{Val: e, Stack: string(debug.Stack())}
 		}
 	}()
+	blocksRun++
 	_, err = f.App.BeginBlocker(f.Ctx)
+	if err != nil && blockFailHook != nil {
+		blockFailHook("begin-block", err)
+	}
 	return err
 }
 
@@ -215,6 +226,9 @@ func (f *Fix) End() (err error) {
 		}
 	}()
 	_, err = f.App.EndBlocker(f.Ctx)
+	if err != nil && blockFailHook != nil {
+		blockFailHook("end-block", err)
+	}
 	if digestOut != nil {
 		// C12: full store digest after every block, compared across OS processes
 		fmt.Fprintf(digestOut, "h=%d err=%v %s\n", f.Height, err != nil, f.StoreDigest())
